@@ -91,12 +91,25 @@ def main():
     if not use_model and not args.no_lean:
         print("INTERNAL: model driver not built (run MANIFEST.setup_cmd)")
         return 2
+    harness_exc = None
     try:
         mod.run(ctx, model if use_model else None)
     except crlib.StopRun:
         ctx.notes.append("exploration stopped early: 25 violations collected")
+    except Exception as e:  # noqa
+        # The harness itself stumbled.  On the validated source that is a bug of the harness (exit 2).  On CHANGED
+        # source it means the implementation behaved in a way the harness never met on the validated tree: the
+        # property is no longer shown to hold, reported as such (with the traceback in the replay).
+        import srcmap as _sm
+        if not _sm.compare(prop).get("changed"):
+            raise
+        harness_exc = traceback.format_exc()
     if use_model:
-        model.flush()
+        try:
+            model.flush()
+        except Exception:  # noqa
+            if harness_exc is None:
+                raise
 
     # 2b. which source was the model last validated against?  Anchored functions that changed since the
     # committed baseline get a second, independently seeded exploration + correspondence pass (quick tier).
@@ -111,10 +124,12 @@ def main():
             m2 = ModelClient(sub)
             try:
                 mod.run(sub, m2 if use_model else None)
+                if use_model:
+                    m2.flush()
             except crlib.StopRun:
                 pass
-            if use_model:
-                m2.flush()
+            except Exception:  # noqa  (changed source: see above)
+                harness_exc = harness_exc or traceback.format_exc()
             ctx.evaluations += sub.evaluations
             ctx.nontrivial |= sub.nontrivial
             ctx.violations.extend(sub.violations)
@@ -137,6 +152,10 @@ def main():
         suites = sorted({d["suite"] for d in ctx.disagreements})
         broken.append({"kind": "correspondence", "suites": suites})
 
+    if harness_exc is not None and not ctx.violations:
+        broken.append({"kind": "harness-could-not-continue", "traceback": harness_exc[-1500:],
+                       "note": "on source that differs from the validated baseline the harness met behaviour of the "
+                               "implementation it cannot handle (e.g. a caller's list emptied under its feet)"})
     if ctx.extra.get("stopped_on_time_limits") and not ctx.violations and crlib.TIMED_OUT_INPUTS:
         first = crlib.TIMED_OUT_INPUTS[0]
         ctx.violations.append({"clause": "does-not-return", "input": first,
@@ -149,8 +168,14 @@ def main():
                        "note": "the implementation ran into the wall-clock bound of case after case (the model "
                                "returns at once on the same inputs); exploration stopped"})
 
+    # an EARLIER stage of the pipeline disagrees with the model (another property's business, not reported
+    # here): the code upstream of this property changed, so its own oracle looks harder before it says "holds"
+    upstream = sum(v for k, v in ctx.dist.items() if k.startswith("upstream_stage_differs_not_this_property"))
+    ctx.extra["upstream_stage_disagreements"] = upstream
+    search = bool(broken) or upstream > 0
+
     # 4. failing-input search when a proof obligation or the correspondence broke ---------
-    if broken and not ctx.violations and not ctx.extra.get("stopped_on_time_limits"):
+    if search and not ctx.violations and not ctx.extra.get("stopped_on_time_limits"):
         budget = 120 if args.tier == "quick" else 900
         t_end = time.time() + budget
         k = 0
@@ -164,6 +189,12 @@ def main():
                 mod.run(sub, None)
             except (crlib.Timeout, crlib.StopRun):
                 pass
+            except Exception:  # noqa
+                import srcmap as _sm2
+                if not _sm2.compare(prop).get("changed"):
+                    raise
+                ctx.notes.append("failing-input search round stopped by a harness exception on changed source")
+                break
             ctx.evaluations += sub.evaluations
             ctx.nontrivial |= sub.nontrivial
             ctx.violations.extend(sub.violations)
